@@ -35,6 +35,9 @@ pub enum DOp {
     BadQuery,
     /// a smart query to an address without contract, and a contract-info query for it
     QueryNoContract,
+    /// a burst of smart / raw / contract-info queries whose address text is no address at all
+    /// (whatever failing queries leave behind must not outlive them, in this App or any other)
+    BadAddrQueries,
 }
 
 const ALL: [DOp; 15] = [DOp::Inst, DOp::Inst2, DOp::ExecCaught, DOp::Store, DOp::Dup1, DOp::Delegate, DOp::Delegate2, DOp::ExecOk, DOp::Send, DOp::Block, DOp::ExecFail, DOp::Mint, DOp::InstFail, DOp::StoreId7, DOp::Sudo];
@@ -150,6 +153,16 @@ fn apply(i: &mut Inst, op: DOp) -> String {
             let texts = vec![format!("{:?}", a.map_err(|e| e.to_string())), format!("{:?}", b.map_err(|e| e.to_string()))];
             format!("query-errors={:016x}/{}", hash64(&texts, 8), texts.iter().map(|t| t.len()).sum::<usize>())
         }
+        DOp::BadAddrQueries => {
+            let mut texts = vec![];
+            for k in 0..12 {
+                let a: Result<cosmwasm_std::Empty, _> = i.app.wrap().query_wasm_smart(format!("not an address {}", k), &NodeMsg { n: 0 });
+                texts.push(format!("{:?}", a.map_err(|e| e.to_string())));
+                texts.push(format!("{:?}", i.app.wrap().query_wasm_raw(format!("not an address {}", k), b"k".to_vec()).map_err(|e| e.to_string())));
+                texts.push(format!("{:?}", i.app.wrap().query_wasm_contract_info(format!("NOT-AN-ADDRESS-{}", k)).map_err(|e| e.to_string())));
+            }
+            format!("query-errors={:016x}/{}", hash64(&texts, 9), texts.iter().map(|t| t.len()).sum::<usize>())
+        }
         DOp::Block => {
             i.app.update_block(next_block);
             format!("block={:?}", i.app.block_info())
@@ -164,6 +177,12 @@ fn apply(i: &mut Inst, op: DOp) -> String {
 }
 
 fn finish_transcript(i: &Inst, mut lines: Vec<String>) -> Vec<String> {
+    // every contract answers a smart query and a contract-info query at the end of its history
+    for c in &i.contracts {
+        let a: Result<cosmwasm_std::Binary, _> = i.app.wrap().query_wasm_smart(c.clone(), &NodeMsg { n: 0 });
+        let info = i.app.wrap().query_wasm_contract_info(c.clone());
+        lines.push(format!("final query {}: smart={:016x} ok={} info={:?}", c, hash64(&format!("{:?}", a.as_ref().map_err(|e| e.to_string())), 10), a.is_ok(), info.map_err(|e| e.to_string())));
+    }
     for id in 1..=8u64 {
         if let Ok(ci) = i.app.wrap().query_wasm_code_info(id) {
             lines.push(format!("code {} creator={} checksum={}", id, ci.creator, ci.checksum.to_hex()));
@@ -240,7 +259,7 @@ pub fn explore(ctx: &Ctx, report: bool, reversed: bool) -> DetOut {
     // that the order in which the two configurations are first used in this process is fixed:
     // standard first here, the other one first in the second process (`reversed`). Whatever a
     // configuration leaves behind in the process shows as a digest difference between the two.
-    let alpha0 = [DOp::Delegate, DOp::Delegate2, DOp::Block, DOp::Inst, DOp::Send, DOp::Mint];
+    let alpha0 = [DOp::Delegate, DOp::Delegate2, DOp::Block, DOp::Inst, DOp::Send, DOp::Mint, DOp::BadAddrQueries];
     let h0 = histories(&alpha0, ctx.tier.pick(3, 4));
     let mut solos0: [Vec<Vec<String>>; 2] = [vec![], vec![]];
     let mut digest_0 = 0u64;
